@@ -137,11 +137,13 @@ def run(v) -> None:
         axes = [None] if len(shape) == 1 else [None, 0, 1]
         for axis in axes:
             for m in METHODS:
-                ex = rng.random() < 0.7
+                # diffcov is a square root of a DIFFERENCE of sums: ill-conditioned when the lag covariance nearly cancels,
+                # so input rounding of a non-exact map is amplified without bound -> exact maps only for it
+                ex = rng.random() < 0.7 or m == "diffcov"
                 mp = rng.choice(EXACT if ex else GENERAL)
                 cases.append({"kind": "scale", "X": X, "axis": axis, "method": m, "map": mp, "exact": ex, "cls": cls})
             for m in rng.sample(ZMETHODS, 4):
-                ex = rng.random() < 0.7
+                ex = rng.random() < 0.7 or m == "diffcov"
                 cases.append({"kind": "z", "X": X, "axis": axis if axis is not None else None, "method": m,
                               "loc": rng.choice(["median", "mean", "norm"]), "map": rng.choice(EXACT if ex else GENERAL), "exact": ex, "cls": cls})
     specs = [{"id": i, "cases": cases[i::14]} for i in range(14)]
@@ -156,7 +158,7 @@ def run(v) -> None:
     for tr, pos in tracecheck.validate("Trace_Robust", traces, verdict=v, label="robust estimator events", chunk=12, timeout=3000):
         e = tr["full"][abs(pos) - 1]
         cfg = {"method": e["method"], "axis": e["axis"], "map": [e["an"], e["ad"], e["b"]], "cls": e["cls"], "exactmap": e["exactmap"],
-               "nlanes": len(e["lanes"]), "lane0": e["lanes"][0], "loc": e.get("loc", "")}
+               "nlanes": len(e["lanes"]), "lane0": e["lanes"][0], "loc": e.get("loc", ""), "lanes": e["lanes"]}
         if e["a"] == "scale":
             cfg["negative_a"] = e["an"] < 0
             v.violation("ScaleEquivariantLaneConsistent" if e["outcome"] == "ok" else "MustNotRaise", "stats.estimate_scale", cfg,
@@ -165,8 +167,8 @@ def run(v) -> None:
         else:
             cfg["negative_a"] = e["an"] < 0
             v.violation("ZScoreEquivariantFinite" if e["outcome"] == "ok" else "MustNotRaise", "stats.estimate_zscore", cfg,
-                        {"outcome": e["outcome"], "z0": e["z0"][0][:8] if e["z0"] else [], "z1": e["z1"][0][:8] if e["z1"] else [],
-                         "scale0": e["scale0"][:4], "finite": e["finite"]}, "Trace_Robust!ZOK")
+                        {"outcome": e["outcome"], "z0": e["z0"], "z1": e["z1"], "scale0": e["scale0"], "loc0": e["loc0"], "tol": e["tol"],
+                         "finite": e["finite"]}, "Trace_Robust!ZOK")
     v.traces += len(evs)
     e = next(x for x in evs if x["a"] == "scale" and x["method"] == "mad")
     v.sample({k: e[k] for k in ("method", "axis", "an", "ad", "b", "s0", "s1", "l1", "outcome")} | {"lane0": e["lanes"][0]})
